@@ -1267,6 +1267,21 @@ func convGate(c *Ctx, prop string) gateResult {
 			sb.WriteString(strings.TrimPrefix(k, "outdir/"))
 			sb.Write(simOut[k])
 		}
+		// a scenario on which the converter's output depends on the schedule (in the simulator)
+		// or differs between two real runs is not a reference scenario: the exploration reports
+		// it as a determinism finding; it says nothing about the fidelity of the instrumentation
+		other := *cs
+		other.Steps = []Step{cs.Steps[0]}
+		other.Steps[0].Sched, other.Steps[0].Seed = "seeded", uint64(7919*(i+1))
+		res2 := c.RunStep(w, &other, 0, 60_000_000, false)
+		if same, _ := sameOutput(simOut, collectOutput(w, res2)); !same {
+			g.Skipped++
+			continue
+		}
+		if real2 := c.RealRunX(cs.Steps[0].Node, stepFiles(cs, 0), cs.Steps[0].Argv, env); real2 != real {
+			g.Skipped++
+			continue
+		}
 		if sortedLines(sb.String()) != sortedLines(real) {
 			infra("fidelity gate (%s): instrumented converter and plain build disagree on generated input %d:\n sim %q\n real %q", prop, i, shortStr([]byte(sb.String()), 300), shortStr([]byte(real), 300))
 		}
